@@ -59,4 +59,63 @@ theorem reported_fields (past : List Op) (m : Bytes) (r : PNMsg) (h : justifiedP
 example : justifiedPN [.feed ⟨178, 99, 3⟩, .feed ⟨178, 98, 37⟩, .feed ⟨178, 38, 64⟩] ⟨178, 6, 62⟩
     = some ⟨2, 421, 8000, false, true, .dataEntry⟩ := by decide
 
+/-! ### data independence (justifies the value abstraction of the correspondence's state-space exploration) -/
+
+/-- C11, data independence: the scanner looks at status bytes and controller numbers only. -/
+theorem data_independent (f : Nat → Nat) (past : List Op) (hp : ∀ op ∈ past, op.Valid) (m : Bytes) (hm : m.Valid) :
+    justifiedPN (past.map (relabelOp f)) (relabelB f m) = (justifiedPN past m).map (relabelMsg f) := by
+  unfold justifiedPN
+  by_cases h : 176 ≤ m.status ∧ m.status < 192 ∧ (m.d1 = 6 ∨ m.d1 = 96 ∨ m.d1 = 97)
+  · have hr : relabelB f m = ⟨m.status, m.d1, f m.d2⟩ := by simp [relabelB, h.1, h.2.1]
+    have hc : m.status - 176 < 16 := by omega
+    have e1 := foldl_relabel (Option.map f) (numMsbStep (m.status - 176)) f (numMsbStep_relabel f _ hc) past none
+    have e2 := foldl_relabel (Option.map f) (numLsbStep (m.status - 176)) f (numLsbStep_relabel f _ hc) past none
+    have e3 := foldl_relabel id (regStep (m.status - 176)) f (regStep_relabel f _ hc) past false
+    have e4 := foldl_relabel (Option.map f) (v38Step (m.status - 176)) f (v38Step_relabel f _ hc) past none
+    simp only [Option.map_none, id] at e1 e2 e3 e4
+    have l1 := numMsb_lt (m.status - 176) past hp
+    have l2 := numLsb_lt (m.status - 176) past hp
+    have l4 := v38_lt (m.status - 176) past hp
+    simp only [numMsb, numLsb, regOf, v38Of] at l1 l2 l4 ⊢
+    simp only [hr, h, and_self, if_true, e1, e2, e3, e4]
+    have hd2 := hm.2.2.2
+    cases hq1 : past.foldl (numMsbStep (m.status - 176)) none with
+    | none => simp
+    | some hi =>
+      cases hq2 : past.foldl (numLsbStep (m.status - 176)) none with
+      | none => simp
+      | some lo =>
+        have hhi := l1 hi hq1
+        have hlo := l2 lo hq2
+        have n1 : (128 * hi + lo) / 128 = hi := by omega
+        have n2 : (128 * hi + lo) % 128 = lo := by omega
+        simp only [Option.map_some]
+        by_cases h96 : m.d1 = 96
+        · simp [h96, relabelMsg, n1, n2]
+        · by_cases h97 : m.d1 = 97
+          · simp [h97, relabelMsg, n1, n2]
+          · cases hq4 : past.foldl (v38Step (m.status - 176)) none with
+            | none => simp [h96, h97, relabelMsg, n1, n2]
+            | some l =>
+              have hl := l4 l hq4
+              have v1 : (128 * m.d2 + l) / 128 = m.d2 := by omega
+              have v2 : (128 * m.d2 + l) % 128 = l := by omega
+              simp [h96, h97, relabelMsg, n1, n2, v1, v2]
+  · have hr : ¬ (176 ≤ (relabelB f m).status ∧ (relabelB f m).status < 192 ∧
+        ((relabelB f m).d1 = 6 ∨ (relabelB f m).d1 = 96 ∨ (relabelB f m).d1 = 97)) := by
+      unfold relabelB; split <;> simpa using h
+    simp [h, hr]
+
+/-- ... and so does the scanner itself after ANY relabelled history -/
+theorem scanner_data_independent (f : Nat → Nat) (hf : ∀ v, v < 128 → f v < 128)
+    (past : List Op) (hp : ∀ op ∈ past, op.Valid) (m : Bytes) (hm : m.Valid) :
+    ∃ s s', pnRun PNScanner.new (past.map (relabelOp f)) = .ok (s, expectedPN [] (past.map (relabelOp f))) ∧
+      s.feed rawImpl (relabelB f m) = .ok (s', (justifiedPN past m).map (relabelMsg f)) := by
+  rw [← data_independent f past hp m hm]
+  exact exact _ (relabel_valid f hf past hp) _ (relabelB_valid f hf m hm)
+
+/-! non-vacuity: collapsing every value to `v % 2` -/
+example : justifiedPN ([.feed ⟨181, 99, 9⟩, .feed ⟨181, 98, 4⟩, .feed ⟨181, 38, 7⟩].map (relabelOp (· % 2)))
+    (relabelB (· % 2) ⟨181, 6, 33⟩) = some ⟨5, 128, 129, false, true, .dataEntry⟩ := by decide
+
 end Midi.Props.C11
